@@ -57,6 +57,18 @@ func (o *Events) OnVariable(f func(walker *Walker, variable *ast.VariableDefinit
 }
 
 func Walk(schema *ast.Schema, document *ast.QueryDocument, observers *Events) {
+	// Link the whole document first, without observers. Rules that look across
+	// fragment spreads (e.g. OverlappingFieldsCanBeMerged) read the links of nodes
+	// the walk has not reached yet when fragments spread each other; without this
+	// pass they saw unlinked nodes on a first validation and linked ones when the
+	// same document was validated again, and reported different errors.
+	linker := Walker{
+		Observers: &Events{},
+		Schema:    schema,
+		Document:  document,
+	}
+	linker.walk()
+
 	w := Walker{
 		Observers: observers,
 		Schema:    schema,
